@@ -3,6 +3,8 @@
 import json, subprocess, sys
 pid = sys.argv[1]; suf = sys.argv[2] if len(sys.argv) > 2 else ""
 hint = sys.argv[3] if len(sys.argv) > 3 else ""
+if hint.startswith("@"):
+    hint = json.load(open(hint[1:])).get(pid, "")
 wt = f"/tmp/wt_{pid}{suf}"
 subprocess.run(["git", "-C", "/repo", "worktree", "add", "-q", "--detach", wt, "HEAD"], check=True)
 props = {json.loads(l)["id"]: json.loads(l) for l in open("/verif/properties.jsonl")}
